@@ -168,4 +168,26 @@ def batchRun (cls : Kwargs κ → Prog) (params : List (Nat × PVal κ)) (iterat
   | .error e => .error e
   | .ok work => batchOrder cls maxSteps period (number 0 work)
 
+/-- A worker completion order other than the submission order (`runp … late=j`): the runs of the design point of the
+    `j`-th run of the work list are handed back after all the others (their worker is slow); no such run ⇒ the
+    submission order. -/
+def lateOrder [DecidableEq κ] (j : Nat) (runs : List (Run κ)) : List (Run κ) :=
+  match runs[j]? with
+  | none => runs
+  | some r => runs.filter (fun x => !(decide (x.kwargs = r.kwargs))) ++ runs.filter (fun x => decide (x.kwargs = r.kwargs))
+
+/-- what an observer does with a parallel result: the runs' chunks ordered by RunId (rows of one run keep their order) -/
+def byRunId (n : Nat) (rows : List (BRow κ)) : List (BRow κ) :=
+  (List.range n).flatMap fun i => rows.filter (fun b => b.runId == i)
+
+/-- `batch_run(..., number_processes > 1)` with the completion order `lateOrder j`, chunks then ordered by RunId -/
+def batchRunLate [DecidableEq κ] (cls : Kwargs κ → Prog) (params : List (Nat × PVal κ)) (iterations maxSteps : Nat)
+    (period : Int) (j : Nat) : Except Err (List (BRow κ)) :=
+  match iterLoop iterations 0 params with
+  | .error e => .error e
+  | .ok work =>
+    match batchOrder cls maxSteps period (lateOrder j (number 0 work)) with
+    | .error e => .error e
+    | .ok rows => .ok (byRunId work.length rows)
+
 end Mesa.Batch
